@@ -155,4 +155,39 @@ ResultUnit(k, pu, ux) ==
                   IF k = "pvoigt" THEN pu[4] ELSE UOne, ux)
 
 SumUnit(a, b) == IF a = URefused \/ b = URefused \/ a # b THEN URefused ELSE a
+
+-----------------------------------------------------------------------------
+(* Evaluation variants (hardening round).  The property quantifies over parameter *values*  *)
+(* and over x; the same values can be handed over in many forms, and none of them may       *)
+(* change the outcome:                                                                      *)
+(*   xd      element type of x (int32: channel / detector numbers)                          *)
+(*   pd      typing of the parameters: all of one element type, or only the location /      *)
+(*           only the leading coefficient integer-typed ("int_loc" / "int_leading"), or     *)
+(*           every parameter except the leading coefficient ("float_leading")               *)
+(*   layout  x as a 1-d array, a scalar (0-d), a strided view, 2-d, a transposed 2-d view   *)
+(*   order   order in which the keyword arguments are listed                                *)
+(* An integer embeds exactly in the floats, so a typing only changes how a value is stored. *)
+IntTypes == {"int32", "int64"}
+FloatTypes == {"float32", "float64"}
+DTypes == IntTypes \cup FloatTypes
+IsIntType(d) == d \in IntTypes
+Typings == (DTypes \ {"int32"}) \cup {"int_loc", "int_leading", "float_leading"}
+XLayouts == {"1d", "0d", "strided", "2d", "2dT"}
+KeyOrders == {"declared", "reversed", "rotated"}
+EvalVariants == [xd : DTypes, pd : Typings, layout : XLayouts, order : KeyOrders]
+
+(* integer-typed and floating-point operands meet in one evaluation *)
+MixedTypes(ds) == (\E d \in ds : IsIntType(d)) /\ (\E d \in ds : ~IsIntType(d))
+
+(* element type that holds every value of both operand types (what an evaluation that does  *)
+(* not narrow any operand produces)                                                         *)
+JoinType(a, b) ==
+    IF IsIntType(a) /\ IsIntType(b) THEN (IF a = b THEN a ELSE "int64")
+    ELSE IF IsIntType(a) THEN b
+    ELSE IF IsIntType(b) THEN a
+    ELSE IF a = b THEN a ELSE "float64"
+
+(* an in-place update  acc (op)= operand  can hold the result only if the accumulator's     *)
+(* type already is the join                                                                 *)
+InPlaceFits(acc, operand) == ~(IsIntType(acc) /\ ~IsIntType(operand))
 =============================================================================
